@@ -56,6 +56,10 @@ pub mod underlays;
 
 pub(crate) mod internal;
 
+/// Verification hooks (feature `verif-hooks`, off by default; add-only, see `/verif`).
+#[cfg(feature = "verif-hooks")]
+pub mod verif;
+
 // Re-exported dependencies
 //
 // These crates appear in `scion-stack`'s public API by deliberate choice. They are re-exported here
